@@ -472,45 +472,112 @@ def r04e(P, R):
            "the comparison(s) %s in %s are not of a form this rule reads" % ([x["op"] for x in cmp_], short(c.path)), loc=c.loc())
 
 
+def field_writes(P, adt, field):
+    """[(fn, expr)] of what the checker puts into field `field` of its own struct `adt`: the value given in a struct literal, the
+    arguments of method chains rooted at the field (`s.f.entry(k).or_insert(v)`, `s.f.push(x)`), the right-hand sides of
+    assignments to it"""
+    out = []
+    for g in P.fns.values():
+        if g.crate != "nitrogql_checker" or g.derived or g.kind == "Closure":
+            continue
+        for x in g.walk():
+            k = x.get("k")
+            if k == "Struct" and "rest" not in x and norm(x.get("adt") or "") == adt:
+                for fld in x.get("fields", []):
+                    if isinstance(fld, dict) and fld.get("name") == field and "e" in fld:
+                        out.append((g, fld["e"], x))
+            elif k == "MethodCall" and x.get("args"):
+                r = x["recv"]
+                while r.get("k") in ("MethodCall", "AddrOf", "Unary", "DropTemps", "Index"):
+                    r = r["recv"] if r.get("k") == "MethodCall" else r["e"]
+                if r.get("k") == "Field" and norm(r.get("adt") or "") == adt and r.get("field") == field:
+                    out.extend((g, a, x) for a in x["args"])
+            elif k in ("Assign", "AssignOp"):
+                l = x["l"]
+                while l.get("k") in ("Unary", "Index", "DropTemps"):
+                    l = l["e"]
+                if l.get("k") == "Field" and norm(l.get("adt") or "") == adt and l.get("field") == field:
+                    out.append((g, x["r"], x))
+    return out
+
+
+def definition_reads(P, fn, expr, adts):
+    """{adt: {fields}} of the AST types `adts` that the value of `expr` (in `fn`) is computed from — through locals, through the
+    bodies of the checker functions called, and *per field* through the checker's own structs: a value read from `s.f` depends on
+    what is written into `s.f`, not on everything the function that built `s` has looked at (an index struct with one map per
+    kind keeps the kinds apart)."""
+    reads = {}
+    provs = {}
+    seen = set()
+
+    def prov_of(g):
+        if g.path not in provs:
+            provs[g.path] = MProv(g)
+        return provs[g.path]
+
+    def visit(n, g):
+        st = [n]
+        while st:
+            y = st.pop()
+            if isinstance(y, list):
+                st.extend(y)
+                continue
+            if not isinstance(y, dict):
+                continue
+            k = y.get("k")
+            if k == "Field":
+                a = norm(y.get("adt") or "")
+                if a in adts:
+                    reads.setdefault(a, set()).add(y["field"])
+                elif a.startswith(CK) and a in P.adts and P.adts[a].kind == "Struct":
+                    if (a, y["field"]) not in seen:
+                        seen.add((a, y["field"]))
+                        for h, e, _ in field_writes(P, a, y["field"]):
+                            visit(e, h)
+                    continue       # the struct as a whole is not followed: only this field's content matters
+            elif k in ("Call", "MethodCall"):
+                cn = call_name(y)
+                if cn and cn in P.fns and ("f", cn) not in seen and not P.fns[cn].derived and "inl" not in y:
+                    seen.add(("f", cn))
+                    visit(P.fns[cn].body, P.fns[cn])
+            elif k == "Path" and "local" in y and ("l", y["local"]) not in seen:
+                seen.add(("l", y["local"]))
+                for src, _ in prov_of(g).src.get(y["local"], []):
+                    if src is not None:
+                        visit(src, g)
+            for key, v in y.items():
+                if key != "s" and isinstance(v, (dict, list)):
+                    st.append(v)
+    visit(expr, fn)
+    return reads
+
+
 def r04f(P, R):
     """name spaces: operation names are unique among operations, fragment names among fragments — an operation and a fragment may
     share a name (spec 5.2.1.1 / 5.5.1.1)"""
-    e = P.fn(CK + "operation_checker::check_operation_document")
-    pv = Prov(e)
+    e0 = P.fn(CK + "operation_checker::check_operation_document")
+    e = inlined(P, e0)
     OD, FD = A + "operation::OperationDefinition", A + "operation::FragmentDefinition"
     for variant, own, other in (("DuplicateOperationName", OD, FD), ("DuplicateFragmentName", FD, OD)):
         sites = [i for i, (x, _) in enumerate(e.nodes()) if x.get("k") == "Struct" and "rest" not in x and norm(x.get("variant", "")).endswith(variant)]
         R.floor("R04-f", variant + " sites", len(sites), 1)
         for i in sites:
-            guards = [c for c in enclosing_contexts(e, i) if c[0] in ("if-then", "let-else") or (c[0] == "arm" and c[1] is not None)]
+            guards = [c for c in enclosing_contexts(e, i) if c[0] in ("if-then", "let-else") or (c[0] == "arm" and c[1] is not None and c[1].get("src") == "Normal")]
             if not guards:
-                R.undecided("R04-f", "namespace:" + variant, "no guard found", loc=e.loc())
+                R.undecided("R04-f", "namespace:" + variant, "no guard found", loc=e0.loc())
                 continue
             g = guards[0][1]["cond"] if guards[0][0] == "if-then" else (guards[0][1].get("init") if guards[0][0] == "let-else" else guards[0][1]["scrut"])
-            # fields of the *earlier* definition that the search predicate reads, callee bodies included
-            reads = {}
-            todo, seen = [g], set()
-            while todo:
-                x = todo.pop()
-                for y in subnodes(x):
-                    if y.get("k") == "Field" and norm(y.get("adt", "")) in (OD, FD):
-                        reads.setdefault(norm(y["adt"]), set()).add(y["field"])
-                    cn = call_name(y) if y.get("k") in ("Call", "MethodCall") else None
-                    if cn and cn in P.fns and cn not in seen and not P.fns[cn].derived:
-                        seen.add(cn)
-                        todo.append(P.fns[cn].body)
-                    if y.get("k") == "Path" and "local" in y and y["local"] not in seen:
-                        seen.add(y["local"])
-                        todo.extend(src for src, _ in pv.src.get(y["local"], []) if src is not None)
-            # the current definition's own name is read through its binding (outside the predicate); what matters is that the
-            # predicate never consults the *other* kind's name
+            # names of definitions that the search deciding the report is computed from
+            reads = definition_reads(P, e, g, (OD, FD))
+            # the current definition's own name is read through its binding; what matters is that the search never consults the
+            # *other* kind's name
             bad = "name" in reads.get(other, set())
             verdict = False if bad else (True if "name" in reads.get(own, set()) else None)
             decide(R, "R04-f", "namespace:" + variant, verdict,
                    "%s compares names of %s only" % (variant, own.split("::")[-1]),
                    "%s is raised by a search that also compares against the names of %s: `fragment User ...` followed by `query User ...` "
                    "is rejected although operations and fragments live in separate name spaces" % (variant, other.split("::")[-1]),
-                   "the search that decides %s reads no definition name the rule can see" % variant, loc=e.loc())
+                   "the search that decides %s reads no definition name the rule can see" % variant, loc=e0.loc())
 
 
 def _r03c(P, R):
